@@ -102,10 +102,14 @@ func svcAttr(key string) func(v any) (m, m) {
 // lookup evaluates a path such as "Services[s].Ports[0].Target" or
 // "len(Services[s].Ports)" on a typed value and prints the result.
 func lookup(root any, path string) (string, error) {
-	isLen := false
+	isLen, isNil := false, false
 	if strings.HasPrefix(path, "len(") && strings.HasSuffix(path, ")") {
 		isLen = true
 		path = path[4 : len(path)-1]
+	}
+	if strings.HasPrefix(path, "isnil(") && strings.HasSuffix(path, ")") {
+		isNil = true
+		path = path[6 : len(path)-1]
 	}
 	v := reflect.ValueOf(root)
 	i := 0
@@ -158,6 +162,13 @@ func lookup(root any, path string) (string, error) {
 			}
 			v = f
 		}
+	}
+	if isNil {
+		switch v.Kind() {
+		case reflect.Ptr, reflect.Interface, reflect.Slice, reflect.Map:
+			return strconv.FormatBool(v.IsNil()), nil
+		}
+		return "", fmt.Errorf("isnil of %s", v.Kind())
 	}
 	if (v.Kind() == reflect.Ptr || v.Kind() == reflect.Interface) && v.IsNil() {
 		if isLen {
